@@ -1,13 +1,98 @@
 /-
   C14 — server description and control interoperate with the library's own client.
-  Property theorems only (helper lemmas are in `Upnp/Lemmas/C14*.lean`).
+
+  Property theorems only (helper lemmas are in `Upnp/Lemmas/C14*.lean`).  The model
+  (`Upnp/Model/C14Server.lean`) transcribes, at the level of parsed XML trees, the HTTP side of
+  `server.py` (construction of `UpnpServerService`, `UpnpXmlSerializer`, `_parse_action_body`,
+  `action_handler`, `_create_action_response`, `_create_error_action_response`) and the client
+  (`client_factory.py` description parsing, `UpnpAction.async_call`).  `serverHandle`, `clientCall`,
+  `parseScpd`, `serializeScpd` … are the very functions the correspondence driver runs against the
+  real code, and `rawOk` / `callOk` / `svcMatches` (`Upnp/Spec/C14.lean`) are the predicates the
+  driver evaluates on the implementation's observations.
 -/
-import Upnp.Spec.C14
+import Upnp.Lemmas.C14Ctl
 namespace Upnp.C14
-open Upnp
+open Upnp PyDict
 
 /-- every `out` coercer of `const.STATE_VARIABLE_TYPE_MAPPING` has a shape that does not raise
-    (the table is regenerated from the source on every run) -/
+    (the table is regenerated from the source on every run; F08a: `time.isoformat("T", …)`) -/
 theorem gen_types_ok : Gen.C14.typeRows.all (fun r => !r.outRaises) = true := by decide
+
+/-! ### invalid requests: SOAP fault or 4xx, never an unhandled exception -/
+
+/-- what the harness observes of an outcome (status, SOAP fault as the client's `_parse_fault`
+    reads it) -/
+def obsOf (o : Outcome) : RawObs :=
+  match o with
+  | .unhandled e => .unhandled e
+  | .http s _ => .resp s none none
+  | .resp s b => .resp s ((parseFault b).map fun x => match x with | .ok c => c | .error _ => none) none
+
+/-- **For every request** — any SOAPAction header or none, any body tree or a body that is not XML
+    at all — and every handler that keeps its contract, no exception escapes `action_handler`. -/
+theorem bad_request_never_unhandled (fs : Facts) (stype : Str) (acts : List SAct) (h : Handler) (r : Req)
+    (hh : HandlerOk fs acts h) : ∀ e, serverHandle fs stype acts h r ≠ .unhandled e := by
+  intro e he
+  rcases serverHandle_cases fs stype acts h r hh with ⟨x, hx⟩ | ⟨x, hx⟩ | ⟨x, hx⟩ <;>
+    (rw [hx] at he; cases he)
+
+/-- **Every invalid request** (malformed envelope or header, unknown action, unknown / missing /
+    unparseable / out-of-range / not-allowed argument — `invalidReq`) is answered with status 400
+    or with status 500 carrying a SOAP fault the library's client decodes as UPnP error 402;
+    this needs no assumption on the handler (it is never reached). -/
+theorem invalid_request_rejected (fs : Facts) (stype : Str) (acts : List SAct) (h : Handler) (r : Req)
+    (hinv : invalidReq fs acts r = true) :
+    ((∃ reason, serverHandle fs stype acts h r = .http 400 reason)
+      ∨ (serverHandle fs stype acts h r = .resp 500 (faultDoc 402)
+          ∧ parseFault (faultDoc 402) = some (.ok (some 402))))
+    ∧ handlerInput fs acts r = none := by
+  refine ⟨?_, ?_⟩
+  · rcases invalid_cases fs stype acts h r hinv with h1 | h2
+    · exact Or.inl h1
+    · exact Or.inr ⟨h2, parseFault_faultDoc 402⟩
+  · unfold invalidReq at hinv
+    unfold handlerInput
+    cases hp : parseActionBody fs acts r with
+    | bad reason => rfl
+    | ok act kw =>
+      rw [hp] at hinv
+      simp only at hinv
+      simp only
+      split
+      · rename_i hs; rw [hs] at hinv; cases hinv
+      · rfl
+
+/-- the run-time judge accepts the model's answer to every invalid request -/
+theorem invalid_request_judged (fs : Facts) (stype : Str) (acts : List SAct) (h : Handler) (r : Req)
+    (script : HandlerRes) (seen : Option (List (Str × Val)))
+    (hinv : invalidReq fs acts r = true) :
+    rawOk fs stype acts r script seen (obsOf (serverHandle fs stype acts h r)) = true := by
+  rcases invalid_cases fs stype acts h r hinv with ⟨reason, h1⟩ | h2
+  · rw [h1]; simp [obsOf, rawOk, hinv, isClientError]
+  · rw [h2]; simp [obsOf, rawOk, hinv, parseFault_faultDoc]
+
+/-! ### handler-raised action errors -/
+
+/-- **A handler-raised action error reaches the caller as an action error with the same UPnP
+    code**: whenever the request reaches the handler (`handlerInput`) and the handler raises
+    `UpnpActionError(error_code=c)`, `c ≠ 0`, the client's decoding of the server's answer is
+    `UpnpActionResponseError(error_code=c, status=500)`. -/
+theorem handler_error_propagates (fs : Facts) (stype : Str) (acts : List SAct) (h : Handler) (r : Req)
+    (cact : SAct) (n : Str) (kw : PyDict Str Val) (c : Nat)
+    (hi : handlerInput fs acts r = some (n, kw)) (he : h n kw = .err (some c)) (hc : c ≠ 0) :
+    clientDecode fs stype cact (serverHandle fs stype acts h r) = .actionError (some c) (some 500) := by
+  obtain ⟨act, _, _, _, hs⟩ := serverHandle_reached (stype := stype) (h := h) hi
+  rw [hs, he]
+  simp only [hc, ↓reduceIte]
+  exact clientDecode_fault fs stype cact c
+
+/-- an error without a code (or code 0) is reported as 501 "Action Failed" -/
+theorem handler_error_default (fs : Facts) (stype : Str) (acts : List SAct) (h : Handler) (r : Req)
+    (cact : SAct) (n : Str) (kw : PyDict Str Val)
+    (hi : handlerInput fs acts r = some (n, kw)) (he : h n kw = .err none) :
+    clientDecode fs stype cact (serverHandle fs stype acts h r) = .actionError (some 501) (some 500) := by
+  obtain ⟨act, _, _, _, hs⟩ := serverHandle_reached (stype := stype) (h := h) hi
+  rw [hs, he]
+  exact clientDecode_fault fs stype cact 501
 
 end Upnp.C14
